@@ -298,27 +298,41 @@ def big_programs(tier):
     return out
 
 
+# Operations whose pairs get the deepest (bound 3) exploration in the thorough tier: every code path that mutates the
+# ring or the lookup, plus the readers that have been seen to observe intermediate states.
+CORE3 = (('set', 'c', 2), ('set', 'a', 5), ('getitem', 'a'), ('getitem', 'c'), ('setdefault', 'c', 7), ('del', 'a'),
+         ('pop', 'a'), ('popitem',), ('update', (('a', 8), ('c', 4))), ('clear',), ('len',), ('in', 'a'))
+
+
 def programs(tier):
-    """List of (cfg, program, bound)."""
+    """List of (cfg, program, bound).
+
+    Measured cost per program on one core (max_size=2, full): 2x1 bound 2 ~1 s, 2x1 bound 3 4k-12k executions 13-36 s,
+    2x2 bound 2 ~2-3k executions ~5 s, 3x1 bound 1 ~1k executions ~3 s, 3x1 bound 2 40k-60k executions 140-190 s.  The
+    thorough tier spends its budget accordingly: bound 3 on the CORE3 pairs of the full max_size=2 caches, bound 2 on
+    every other pair and on all 2x2 programs, bound 2 on the three-thread programs over the three shortest mutators and
+    bound 1 on all other three-thread programs."""
     out = []
     quick = tier == 'quick'
     for cfg in configs(tier):
         A = alphabet(cfg, quick=quick)
-        b21 = 2 if quick else 3
+        core_cfg = cfg['max_size'] == 2 and len(cfg['prefill']) == 2
         for i, x in enumerate(A):
             for y in A[i:]:
                 names = {x[0], y[0]}
                 if cfg['on_miss'] and not any(o[0] in ('getitem', 'get', 'setdefault') and o[1] == 'c' for o in (x, y)):
                     continue      # on_miss only changes executions that look up an absent key
-                b = b21
+                b = 2
                 if quick and cfg['max_size'] == 1:
                     b = 1        # the max_size=2 configurations carry the bound-2 exploration in the quick tier
+                if not quick and core_cfg and x in CORE3 and y in CORE3:
+                    b = 3
                 if 'copy' in names:
                     b = max(1, b - 1)  # copy() re-inserts every item: ~4x the scheduling points of any other operation
                 out.append((cfg, ((x,), (y,)), b))
         R = alphabet(cfg, reduced=True)
-        if cfg['max_size'] == 2 and len(cfg['prefill']) == 2:
-            seqs = [(x, y) for x in R[:5] for y in R[:5] if x != y] if not quick else \
+        if core_cfg:
+            seqs = [(x, y) for x in R[:4] for y in R[:4] if x != y] if not quick else \
                    [(R[0], R[1]), (R[1], R[0]), (R[2], R[0]), (R[3], R[1]), (R[4], R[2])]
             b22 = 1 if quick else 2
             for i, p in enumerate(seqs):
@@ -326,7 +340,8 @@ def programs(tier):
                     out.append((cfg, (p, q), b22))
             trio = R if not quick else R[:3]
             for x, y, z in itertools.combinations_with_replacement(trio, 3):
-                out.append((cfg, ((x,), (y,), (z,)), 1 if quick else 2))
+                deep = not quick and cfg['on_miss'] is False and {x, y, z} <= set(R[:3])
+                out.append((cfg, ((x,), (y,), (z,)), 2 if deep else 1))
     return out
 
 
@@ -384,7 +399,9 @@ def run(ctx):
     tasks = [(cfg, prog, bound, True) for cfg, prog, bound in programs(ctx.tier)]
     tasks += [(cfg, prog, bound, 'locks') for cfg, prog, bound in big_programs(ctx.tier)]
     ctx.rng.shuffle(tasks)
-    results = core.pmap(explore_program, tasks, chunksize=4)
+    # longest first (three threads, then the higher bounds), so that the pool does not end on a 3-minute straggler
+    tasks.sort(key=lambda t: (-(len(t[1]) >= 3) * t[2], -t[2]))
+    results = core.pmap(explore_program, tasks, chunksize=1 if not ctx.quick() else 4)
     cov = ctx.coverage
     ex = sum(r['stats']['executions'] for r in results)
     cov['programs'] = len(results)
@@ -406,9 +423,11 @@ def run(ctx):
     cov['programs_with_more_than_one_outcome'] = len(colliding)
     cov['programs_single_outcome'] = len(results) - len(colliding)
     cov['max_scheduling_points_per_execution'] = max(r['stats']['max_points'] for r in results)
-    cov['bounds'] = {'preemption_bound': {'2x1': 2 if ctx.quick() else 3, '2x2': 1 if ctx.quick() else 2,
-                                          '3x1': 1 if ctx.quick() else 2},
-                     'configs': configs(ctx.tier)}
+    nb = {}
+    for cfg, prog, bound, red in tasks:
+        shape = 'bulk(lock granularity)' if red == 'locks' else '%dx%d' % (len(prog), max(len(t) for t in prog))
+        nb['%s bound %d' % (shape, bound)] = nb.get('%s bound %d' % (shape, bound), 0) + 1
+    cov['bounds'] = {'programs_by_shape_and_preemption_bound': nb, 'configs': configs(ctx.tier)}
     cov['exhaustive'] = not any(r['stats']['capped'] for r in results)
     cov['samples'] = [{'program': r['program'], 'executions': r['stats']['executions'],
                        'distinct_outcomes': r['outcomes'], 'serial_outcomes': r['serial']}
